@@ -1,7 +1,8 @@
 """C19 — number encodings are lossless."""
 CONFIG = {
-    "manifest": {'level_text': "Coq theorems for ALL values: OASIS unsigned / signed / packed integers and 2-, 3-, g-deltas round trip, every alternative legal integer encoding up to 10 bytes is accepted, values beyond 64 bits are flagged; point lists of any length round trip under both closed settings and every one of the six list types is accepted (writer's type selection state machine and the implicit closing vertex included); GDSII 8-byte reals: decode(encode x) = x exactly for every normal double of the format's range (encoder modelled exactly: exponent = ceil(frexp exponent / 4)), normalisation idempotent, the 56-to-53-bit rounding of the decoder is the identity on encoder outputs; 16/32/64-bit swaps are byte reversals and involutive (by byte decomposition, not sampling); OASIS reals over Flocq binary64: every finite double except -0.0 round trips bit for bit whichever of the integer / reciprocal / IEEE forms the writer picks. All models mirror the C++ statement by statement and run, extracted, against the real codecs; literals are regenerated from the source.", 'level_note': "Theorems over Z/N/Q are closed under the global context; the OASIS-real theorems depend on the standard-library axioms that Flocq's definitions pull in (ClassicalDedekindReals.sig_forall_dec, sig_not_dec, FunctionalExtensionality.functional_extensionality_dep, Classical_Prop.classic). Acceptance of ratio and single-precision reals (types 4-6) is decided by the differential run only. -0.0 is written as integer 0 (sign lost; numerically equal) - recorded, not flagged. Padded integers of 11+ bytes are flagged as overflow by design (stated bound). Two defects found by this check were repaired by fix: commits.", 'technique': 'Coq proof over Gallina model of the codecs + generated-constant obligations + extracted-model differential run'},
+    "manifest": {'level_text': "Coq theorems for ALL values: OASIS unsigned / signed / packed integers and 2-, 3-, g-deltas round trip, every alternative legal integer encoding up to 10 bytes is accepted, values beyond 64 bits are flagged; point lists of any length round trip under both closed settings and every one of the six list types is accepted (writer's type selection state machine and the implicit closing vertex included); GDSII 8-byte reals: decode(encode x) = x exactly for every normal double of the format's range (encoder modelled exactly: exponent = ceil(frexp exponent / 4)), normalisation idempotent, the 56-to-53-bit rounding of the decoder is the identity on encoder outputs; 16/32/64-bit swaps are byte reversals and involutive (by byte decomposition, not sampling); OASIS reals over Flocq binary64: every finite double except -0.0 round trips bit for bit whichever of the integer / reciprocal / IEEE forms the writer picks. All models mirror the C++ statement by statement and run, extracted, against the real codecs; literals are regenerated from the source.", 'level_note': "Theorems over Z/N/Q are closed under the global context; the OASIS-real theorems depend on the standard-library axioms that Flocq's definitions pull in (ClassicalDedekindReals.sig_forall_dec, sig_not_dec, FunctionalExtensionality.functional_extensionality_dep, Classical_Prop.classic). Ratio and single-precision reals (types 4-6) are inside the theorems (Properties_C19R2.v: oas_real_float_form - every finite single converts exactly, subnormals and signed zeros included -, oas_real_ratio_form - the correctly rounded quotient of the correctly rounded operands -, oas_real_ratio_exact, oas_real_all_spellings_agree: the 8-byte form, every exact ratio, the single with the same value and the writer's own form decode to ONE bit pattern); the sign of a NaN produced by 0/0 is not modelled. -0.0 is written as integer 0 (sign lost; numerically equal) - recorded, not flagged. Padded integers of 11+ bytes are flagged as overflow by design (stated bound). Two defects found by this check were repaired by fix: commits.", 'technique': 'Coq proof over Gallina model of the codecs + generated-constant obligations + extracted-model differential run'},
     "prop_file": "Properties_C19",
+    "extra_prop_files": ["Properties_C19R2"],   # ratio (types 4/5) and single-precision (type 6) reals: all spellings of a value decode to one bit pattern
     "units": [
         {"harness": "c19", "driver": "c19", "extracted": ["c19"], "extract_file": "Extract_C19", "include_cpp": ["oasis.cpp"]},
         {"harness": "c19_plist", "driver": "c19_plist", "extracted": ["c19_plist"], "extract_file": "Extract_C19Plist", "thorough_seeds": 2},
